@@ -263,6 +263,7 @@ impl<'a> Compiler<'a> {
     fn scope_end(&mut self) {
         *self.scope_depth_mut() -= 1;
         let scope_depth = self.scope_depth();
+        let trace = self.trace();
         let locals = &mut self.locals[self.function_id];
         while locals
             .last()
@@ -270,11 +271,17 @@ impl<'a> Compiler<'a> {
             .unwrap_or(false)
         {
             let var = locals.pop().unwrap();
-            if var.captured {
-                self.program.bytecode.push(Instruction::CloseUpvalue as u8);
+            let instruction = if var.captured {
+                Instruction::CloseUpvalue
             } else {
-                self.program.bytecode.push(Instruction::Pop as u8);
-            }
+                Instruction::Pop
+            };
+            // like every other instruction, with a trace entry
+            self.program
+                .trace
+                .insert(self.program.bytecode.len() as u32, trace.clone())
+                .unwrap();
+            self.program.bytecode.push(instruction as u8);
         }
     }
 
